@@ -107,10 +107,10 @@ struct Ctx {
 	}
 	std::vector<void *> slots; // shared hand-off slots (indices are script parameters)
 	uint64_t serial = 0;
-	void *do_alloc(int me, size_t n, const char *how = "allocate", void *old = nullptr) {
+	void *do_alloc(int me, size_t n, const char *how = "allocate", void *old = nullptr, size_t old_req = 0) {
 		t_map_failed = false;
 		void *p = old ? pool->realloc(old, n) : pool->allocate(n);
-		if(!p && t_map_failed) { count("calls_that_returned_null_after_an_injected_map_failure"); if(old) { /* the source stays valid and live */ Block b{n, pool->get_size(old), ++serial * 0x9E3779B97F4A7C15ull, me}; b.req = std::min(b.req, b.size); mon.live[(uintptr_t)old] = b; for(size_t i = 0; i < owned(b); i++) ((uint8_t *)old)[i] = pat_byte(b.pat, i); return old; } return nullptr; }
+		if(!p && t_map_failed) { count("calls_that_returned_null_after_an_injected_map_failure"); if(old) { /* the source stays valid and live */ Block b{old_req, pool->get_size(old), ++serial * 0x9E3779B97F4A7C15ull, me}; /* still the block of the original request */ mon.live[(uintptr_t)old] = b; for(size_t i = 0; i < owned(b); i++) ((uint8_t *)old)[i] = pat_byte(b.pat, i); return old; } return nullptr; }
 		if(!p) { mon.fail("null", strf("%s(%zu) returned null although no map() call of this worker failed", how, n)); return nullptr; }
 		uintptr_t a = (uintptr_t)p; size_t s = pool->get_size(p);
 		if(s < std::max<size_t>(n, 1)) mon.fail("too-small", strf("%s(%zu) returned a block of reported size %zu", how, n, s));
@@ -170,7 +170,7 @@ static void run_world_t(const char *mode, long long idx, const Scenario &sc, sch
 			sched::yield_point("script.before_op", o.kind);
 			if(cx.mon.bad) return;
 			if(o.kind == 0) cx.slots[o.slot] = cx.do_alloc((int)wi, o.size);
-			else if(o.kind == 3) { void *old = cx.slots[o.slot]; if(!old) continue; cx.slots[o.slot] = nullptr; if(!cx.check_and_forget(old, "before realloc")) continue; /* contents are compared only by the sequential checks (C02) */ cx.slots[o.slot] = cx.do_alloc((int)wi, o.size, "realloc", old); }
+			else if(o.kind == 3) { void *old = cx.slots[o.slot]; if(!old) continue; cx.slots[o.slot] = nullptr; size_t old_req = cx.mon.live.count((uintptr_t)old) ? cx.mon.live[(uintptr_t)old].req : 0; if(!cx.check_and_forget(old, "before realloc")) continue; /* contents are compared only by the sequential checks (C02) */ cx.slots[o.slot] = cx.do_alloc((int)wi, o.size, "realloc", old, old_req); }
 			else { void *p = cx.slots[o.slot]; if(!p) continue; cx.slots[o.slot] = nullptr; cx.do_free(p, o.kind == 2); }
 		}
 	});
